@@ -1,4 +1,5 @@
 import Syzgy.Lemmas.Knn
+import Syzgy.Lemmas.CollSearch
 /-!
 # C03 — exact search returns precisely the nearest matching documents
 Candidates are given in *any* visiting order (Go map order); `acc` is the filter's verdict;
@@ -47,6 +48,65 @@ theorem knn_ids_distinct (K : Nat) (cands : List Cand) (h : (cands.map (·.id)).
     have := (hp.map (·.id)).nodup_iff.mpr ((List.filter_sublist.map _).nodup h)
     exact this
   exact hsub.nodup hnd
+
+/-- the documents an exact search has to choose from, in the abstract store: one candidate per live id,
+    with the distance to its stored vector, accepted by the filter on its current metadata -/
+def wanted (c : Coll) (docs : DocStore) (dist : List Nat → Nat) (flt : Nat → Bytes → Bool) : List Cand :=
+  (specCands docs dist flt (getAllIDs c)).filter (·.acc)
+
+/-- **exact K-nearest search on a collection** that represents the store `docs` (`CRep2`: reached by any
+    history of document operations, see `C01.documents_refine`), whatever order `vis` the index map is
+    visited in, any distance function of the stored codes and any filter: the result is sorted, has
+    `min K m` entries, together with a remainder it is a permutation of the `m` accepted live
+    documents, nothing unreported is closer than anything reported, every entry is a live document
+    with its true distance whose current metadata pass the filter, and no id is reported twice -/
+theorem exact_search_on_collection (c : Coll) (segs : List Seg) (docs : DocStore) (h : CRep2 c segs docs)
+    (dist : List Nat → Nat) (flt : Nat → Bytes → Bool) (vis : List (Bytes × Nat)) (hv : vis.Perm c.sf.index) (K : Nat) :
+    ∃ rest, (exactKnn K (exactCands c dist flt vis) ++ rest).Perm (wanted c docs dist flt) ∧
+      Asc (exactKnn K (exactCands c dist flt vis)) ∧
+      (exactKnn K (exactCands c dist flt vis)).length = min K (wanted c docs dist flt).length ∧
+      (∀ x ∈ exactKnn K (exactCands c dist flt vis), ∀ y ∈ rest, x.dist ≤ y.dist) ∧
+      (∀ x ∈ exactKnn K (exactCands c dist flt vis), ∃ d, docs x.id = some d ∧ x.dist = dist d.codes ∧ flt x.id d.md = true) ∧
+      ((exactKnn K (exactCands c dist flt vis)).map (·.id)).Nodup := by
+  have hc := exactCands_spec c segs docs h dist flt vis hv
+  have hf : ((exactCands c dist flt vis).filter (·.acc)).Perm (wanted c docs dist flt) := hc.filter _
+  obtain ⟨rest, h1, h2, h3, h4⟩ := exact_knn K (exactCands c dist flt vis)
+  refine ⟨rest, h1.trans hf, h2, by rw [h3, hf.length_eq], h4, ?_, ?_⟩
+  · intro x hx
+    have hm : x ∈ wanted c docs dist flt := (h1.trans hf).mem_iff.mp (List.mem_append_left _ hx)
+    unfold wanted at hm
+    rw [List.mem_filter, specCands_mem] at hm
+    obtain ⟨⟨_, d, hd, e1, e2⟩, hacc⟩ := hm
+    exact ⟨d, hd, e1, by rw [← e2]; exact hacc⟩
+  · apply knn_ids_distinct
+    have hids : ((exactCands c dist flt vis).map (·.id)).Perm (getAllIDs c) := by
+      have := hc.map (·.id)
+      rwa [specCands_ids docs dist flt (getAllIDs c) (fun id hid => (allIDs_mem c segs docs h id).mp hid)] at this
+    exact hids.nodup_iff.mpr (allIDs_sorted_nodup c segs docs h).2
+
+/-- **exact radius search on a collection**: exactly the accepted live documents within the radius, each
+    once, sorted by distance -/
+theorem exact_radius_on_collection (c : Coll) (segs : List Seg) (docs : DocStore) (h : CRep2 c segs docs)
+    (dist : List Nat → Nat) (flt : Nat → Bytes → Bool) (vis : List (Bytes × Nat)) (hv : vis.Perm c.sf.index) (R : Nat) :
+    (exactRadius R (exactCands c dist flt vis)).Perm
+        ((specCands docs dist flt (getAllIDs c)).filter (fun x => x.acc && decide (x.dist ≤ R))) ∧
+      Asc (exactRadius R (exactCands c dist flt vis)) := by
+  obtain ⟨h1, h2⟩ := exact_radius R (exactCands c dist flt vis)
+  exact ⟨h1.trans ((exactCands_spec c segs docs h dist flt vis hv).filter _), h2⟩
+
+/-- … after **any history** of document operations on a collection (each operation fitting the file
+    bounds): the exact search answers from the final abstract store -/
+theorem exact_search_after_any_history (ops : List DocOp) (c : Coll) (segs : List Seg) (docs : DocStore)
+    (h : CRep2 c segs docs) (hf : DocFitsAll2 c docs ops)
+    (dist : List Nat → Nat) (flt : Nat → Bytes → Bool) (vis : List (Bytes × Nat))
+    (hv : vis.Perm (ops.foldl applyDocOp c).sf.index) (K : Nat) :
+    ∃ rest, (exactKnn K (exactCands (ops.foldl applyDocOp c) dist flt vis) ++ rest).Perm
+        (wanted (ops.foldl applyDocOp c) (ops.foldl docSpec docs) dist flt) ∧
+      ∀ x ∈ exactKnn K (exactCands (ops.foldl applyDocOp c) dist flt vis),
+        ∃ d, ops.foldl docSpec docs x.id = some d ∧ x.dist = dist d.codes ∧ flt x.id d.md = true := by
+  obtain ⟨segs', h'⟩ := doc_run_refines2 ops c segs docs h hf
+  obtain ⟨rest, h1, _, _, _, h5, _⟩ := exact_search_on_collection _ segs' _ h' dist flt vis hv K
+  exact ⟨rest, h1, h5⟩
 
 /-- non-vacuity / sanity: K = 2 over four candidates, one rejected by the filter -/
 example : (exactKnn 2 [⟨1, 50, true⟩, ⟨2, 10, true⟩, ⟨3, 5, false⟩, ⟨4, 30, true⟩]).map (·.id) = [2, 4] := by decide
